@@ -976,15 +976,11 @@ func (c PrepareCallInstr) execute(env *Zlisp) (self bool, err error) {
 	if err != nil {
 		return false, err
 	}
-	if sym, isSym := funcobj.(*SexpSymbol); isSym {
-		// a symbol that refers to a function: CallInstr resolves it
-		name := sym.name
-		if c.sym.isDot {
-			name = c.sym.name
-		}
-		funcobj, err = dotGetSetHelper(env, name, nil)
+	if _, isSym := funcobj.(*SexpSymbol); isSym && c.sym.isDot {
+		// a dot-symbol evaluates to itself: follow the path
+		funcobj, err = dotGetSetHelper(env, c.sym.name, nil)
 		if err != nil {
-			return false, nil // CallInstr reports it
+			return false, err
 		}
 	}
 	f, isFun := funcobj.(*SexpFunction)
@@ -993,7 +989,12 @@ func (c PrepareCallInstr) execute(env *Zlisp) (self bool, err error) {
 	}
 
 	nargs := c.nargs
-	if err := env.prepareLazyCallArgs(f, &nargs); err != nil {
+	if f.inputTypes != nil && !f.varargs {
+		// name and type checking of a typed func
+		if err := env.FunctionCallNameTypeCheck(f, &nargs); err != nil {
+			return false, err
+		}
+	} else if err := env.prepareLazyCallArgs(f, &nargs); err != nil {
 		return false, err
 	}
 	if f.varargs {
